@@ -1,8 +1,10 @@
 (* Executable model of infretis/classes/path.py (Path, paste_paths) and the part of
    classes/system.py it relies on.  No proofs here.
 
-   A frame (System) is reduced to what the path algebra observes: its order parameter
-   (first component), the velocity-reversal flag, an object identity [oid] used only to
+   A frame (System) is reduced to what the path algebra observes: its PROGRESS COORDINATE
+   [ford] = order[0] (an order parameter may return further collective variables,
+   order[1:]; the code never reads them and they belong to the payload), the
+   velocity-reversal flag, an object identity [oid] used only to
    talk about aliasing (Path.copy/reverse/__iadd__ allocate new System objects,
    paste_paths and append do not), and an opaque payload [ftag] standing for EVERYTHING
    ELSE the System object carries: every other attribute in vars(frame) -- config,
@@ -127,4 +129,12 @@ Definition check_interfaces (p : path) (intf : list Z) : option ci_result :=
       let right := zmax_list i0 irest in
       Some (mkCI (start_point p left right) (end_point p left right) (nth 1 cross false) cross)
   | _, _, _ => None
+  end.
+
+(* Path.success(target): self.ordermax[0] > target (strict); None models the error on an
+   empty path *)
+Definition success (p : path) (target : Z) : option bool :=
+  match ordermax p with
+  | Some (omax, _) => Some (target <? omax)
+  | None => None
   end.
